@@ -41,7 +41,21 @@ PARTIAL = ("No theorem about the accuracy of the Boost-ported kernels (gamma_inc
            "x < 0) plus a float64 power-series value; the identities themselves are theorems (BesselI_integer_order_parity ...), the series "
            "value is not certified in Coq. Zeta at negative non-integers is certified only RELATIVE to Go's own Zeta(1-s) through the "
            "functional equation (Zeta(1-s), s > 1 non-integer, is checked by direct summation in the sweep only). LogErfc(x) = ln 2 for "
-           "x <= -6 is an exact float anchor (the bound erfc(6) < 2^-55 is not certified in Coq).")
+           "x <= -6 is an exact float anchor (the bound erfc(6) < 2^-55 is not certified in Coq). "
+           "Round 5 (tiny-argument and ORDER-selected branches): proved for all s > 1, x > 0, K the integral-test enclosure of the Hurwitz series "
+           "sum_k (x+k)^-s (Hurwitz_series_enclosure, convergence, x -> x+1 shift) and from it, for every order n >= 1, the enclosure of psi_n(x), the "
+           "recurrence psi_n(x+1) = psi_n(x) + (-1)^n n!/x^(n+1) and the forward recursion of polygamma_attransitionplus; the linear and log-domain "
+           "formula pairs selected by `n > factorialMax && n*n > MaxLogFloat64` (n >= 27), `part_term == 0`, the huge-x test and the overflow test of the "
+           "forward recursion are proved equal over R (Model4.v: R-models, rounding not modelled). Zeta's branch |s| < rootEpsilon is proved within 2^-50 "
+           "relative on its whole window GIVEN the degree-3 Taylor expansion of zeta at 0 (hypothesis zeta_taylor0; the second and third Taylor coefficients "
+           "enter as rational constants and are not derived in Coq). Anchors: Zeta at 25 non-zero magnitudes x both signs inside / at / outside the window "
+           "(4 units of 2^-53), Polygamma at n = 21,22,26,27,28,100 (thorough: 17 orders) in every x-regime against the certified series (8 (n+2) ulp), "
+           "recurrence anchors across x = 6 + 4n, n = 114/115 (overflow test of the forward recursion), huge x; for x between ~50 n and ~2^56 n only the "
+           "coarser enclosure by the integral alone (relative radius n/x) is certified, small orders n < 16 at x > 3 are left to the round-1 difference "
+           "anchors (blind to relative errors of psi_n(x) at large x) and to the recurrence sweep. Zeta at non-integer s >= 7 and odd integers >= 7 is "
+           "certified by the same series; zeta_imp_prec below 7 (s < 1, <= 2, <= 4) has only the smoothness relation across its thresholds. The go/ast pass "
+           "now lists integer-order comparisons of polygamma.go / zeta.go / factorial.go and labels each comparison select / convergence "
+           "(boundaries.by_role, boundaries.select_not_both_sides, boundaries.newly_covered_round5 with the covering anchors).")
 BOUNDARIES_EXPECTED = "corpus/C13/boundaries_expected.json"
 try:
     ROUND5_NEW = set(json.load(open(os.path.join(vlib.ROOT, "corpus/C13/round5_targets.json"))))
